@@ -9,6 +9,10 @@ package processor
 // call is written with everything the implementation did: error class, what appeared on the queue, cache reads/writes,
 // chain requests, guardianSetC sends and the guardian-set state (through the verif-only accessor in gs_verif_export.go).
 //
+// Histories (historyCases, part of TestVerifGate too): a Push whose guardian-set lookup is held at a gate of the fake chain
+// while other Pushes fetch newer sets (overlapping / repeated / contained batches, line field cur0=), a chain many sets
+// ahead, and after each for every known set VAAs signed by a quorum of each OTHER known set (mkCross).
+//
 // vaa.VAA / VerifySignatures / processor.CalculateQuorum are the module-cache versions the explorer is built with
 // (github.com/alephium/wormhole-fork/node v0.0.0-20240818215257-cb0667c4f6c1).
 
@@ -136,6 +140,30 @@ type pChain struct {
 	cur    uint32
 	log    []string
 	srv    *httptest.Server
+
+	// one-shot gate: while armed, the next getGuardianSet request is announced on `arrived` and answered (and logged) only
+	// after its release channel is closed
+	gmu     sync.Mutex
+	armed   bool
+	arrived chan chan struct{}
+}
+
+func (c *pChain) arm(on bool) {
+	c.gmu.Lock()
+	c.armed = on
+	c.gmu.Unlock()
+}
+
+func (c *pChain) enterGate() chan struct{} {
+	c.gmu.Lock()
+	defer c.gmu.Unlock()
+	if !c.armed {
+		return nil
+	}
+	c.armed = false
+	rel := make(chan struct{})
+	c.arrived <- rel
+	return rel
 }
 
 func pNewChain() *pChain {
@@ -143,7 +171,7 @@ func pNewChain() *pChain {
 	if err != nil {
 		panic(err)
 	}
-	c := &pChain{abi: parsed, keys: map[uint32][]eth_common.Address{}, failAt: map[uint32]bool{}}
+	c := &pChain{abi: parsed, keys: map[uint32][]eth_common.Address{}, failAt: map[uint32]bool{}, arrived: make(chan chan struct{}, 16)}
 	c.srv = httptest.NewServer(http.HandlerFunc(c.serve))
 	return c
 }
@@ -188,13 +216,18 @@ func (c *pChain) serve(w http.ResponseWriter, r *http.Request) {
 		fail("bad calldata")
 		return
 	}
-	c.mu.Lock()
-	defer c.mu.Unlock()
 	m, err := c.abi.MethodById(data[:4])
 	if err != nil {
 		fail("unknown method")
 		return
 	}
+	if m.Name == "getGuardianSet" {
+		if rel := c.enterGate(); rel != nil {
+			<-rel
+		}
+	}
+	c.mu.Lock()
+	defer c.mu.Unlock()
 	var out []byte
 	switch m.Name {
 	case "getCurrentGuardianSetIndex":
@@ -584,39 +617,52 @@ func (g *pGen) newEnv(cid string, w *pWorld, n0 int, qcap int) *pEnv {
 }
 
 // push runs the real Push once and writes the `push` line; returns the result class.
-func (e *pEnv) push(v *vaa.VAA, kname string, o pOpt) string {
+func (e *pEnv) push(v *vaa.VAA, kname string, o pOpt) string { return e.pushX(v, kname, o, nil) }
+
+// pushX with others != nil: the Push is OVERTAKEN - its first getGuardianSet request is held at the fake node's gate (barrier:
+// the request has arrived, so the consumer's guardian-set lookup has read `current` and released the lock), `others` (further
+// pushes, each writing its own line) run to completion, then the request is answered and the Push goes on with a batch that
+// starts at the `current+1` it read earlier.  Written as a push line with cur0=.
+func (e *pEnv) pushX(v *vaa.VAA, kname string, o pOpt, others func()) string {
 	g := e.g
 	queue, cache := e.queue, e.cache
 	cur, _ := e.gs.VerifState()
 	serialized, _ := v.Marshal()
-	for len(queue) > 0 {
-		<-queue
-	}
-	switch o.room {
-	case 0:
-		for len(queue) < e.qcap {
-			queue <- e.filler
-		}
-	case 1:
-		for len(queue) < e.qcap-1 {
-			queue <- e.filler // one slot left: the boundary
-		}
-	}
-	room := o.room != 0
-	before := len(queue)
-	cache.gets, cache.sets = nil, nil
-	cache.getErr = o.getErr
-	cache.forceHit = o.forceHit
+	before := 0
 	url := g.chain.srv.URL
 	if o.noDial {
 		url = "verif-no-such-scheme://x"
 	}
-	e.gs.VerifSetURL(url)
+	arrange := func() {
+		for len(queue) > 0 {
+			<-queue
+		}
+		switch o.room {
+		case 0:
+			for len(queue) < e.qcap {
+				queue <- e.filler
+			}
+		case 1:
+			for len(queue) < e.qcap-1 {
+				queue <- e.filler // one slot left: the boundary
+			}
+		}
+		before = len(queue)
+		cache.gets, cache.sets = nil, nil
+		cache.getErr = o.getErr
+		cache.forceHit = o.forceHit
+		e.gs.VerifSetURL(url)
+	}
+	arrange()
+	room := o.room != 0
 	if o.failAt >= 0 && int(v.GuardianSetIndex) > cur {
 		g.chain.failAt[uint32(o.failAt)] = true
 	}
 	mid := v.MessageID()
 	hit := cache.forceHit || cache.m[mid]
+	if others != nil {
+		g.chain.arm(true)
+	}
 	var err error
 	// Push must not block (its hand-off is a non-blocking send): run it with a deadline so that a blocking
 	// implementation shows up as res=blocked instead of hanging the run.
@@ -633,6 +679,23 @@ func (e *pEnv) push(v *vaa.VAA, kname string, o pOpt) string {
 		}()
 	}()
 	var res string
+	extra := ""
+	if others != nil {
+		select {
+		case rel := <-g.chain.arrived:
+			g.chain.arm(false)
+			others()
+			arrange()
+			hit = cache.forceHit || cache.m[mid]
+			extra = fmt.Sprintf(" cur0=%d", cur)
+			close(rel)
+		case r := <-resC: // returned without asking the chain
+			g.chain.arm(false)
+			resC <- r
+		case <-time.After(20 * time.Second):
+			g.chain.arm(false)
+		}
+	}
 	select {
 	case res = <-resC:
 	case <-time.After(20 * time.Second):
@@ -662,9 +725,9 @@ func (e *pEnv) push(v *vaa.VAA, kname string, o pOpt) string {
 	stored := len(cache.sets) > 0
 	setkey := !stored || (len(cache.sets) == 1 && cache.sets[0] == mid)
 	cur2, list2 := e.gs.VerifState()
-	fmt.Fprintf(g.w, "push %s kind=%s v=%s rec=%s hit=%d room=%d dial=%d chain=%s res=%s enq=%d qsame=%d getkey=%d stored=%d setkey=%d sent=%s cur=%d list=%s named=%s\n",
+	fmt.Fprintf(g.w, "push %s kind=%s v=%s rec=%s hit=%d room=%d dial=%d chain=%s res=%s enq=%d qsame=%d getkey=%d stored=%d setkey=%d sent=%s cur=%d list=%s named=%s%s\n",
 		e.cid, kname, pCanon(v), pRec(v), b2i(hit), b2i(room), b2i(!o.noDial), g.chain.takeLog(), res, b2i(enq), b2i(qsame), b2i(getkey), b2i(stored),
-		b2i(setkey), pSets(e.drain()), cur2, pSets(list2), pKeys(e.w.addrs(int(v.GuardianSetIndex))))
+		b2i(setkey), pSets(e.drain()), cur2, pSets(list2), pKeys(e.w.addrs(int(v.GuardianSetIndex))), extra)
 	return res
 }
 
@@ -926,6 +989,152 @@ func (g *pGen) gateCases() {
 	}
 }
 
+// ---------------------------------------------------------------- histories: overtaken lookups, far-ahead sets, cross-signed VAAs
+
+// mkCross: a VAA naming set si that carries exactly quorum(|set sj|) valid signatures of set sj's guardians under their
+// indexes in sj - complete for set sj, not for the set it names (unless the two sets agree on those positions, which the
+// oracle decides).  Whatever set the explorer looks at instead of the named one, some (si, sj) pair passes its gate.
+func (g *pGen) mkCross(w *pWorld, si, sj int) (*vaa.VAA, string) {
+	v := g.body(uint32(si))
+	keys := w.truth[sj]
+	n := len(keys)
+	q := nodeprocessor.CalculateQuorum(n)
+	g.signWith(v, keys, g.subset(n, q))
+	return v, fmt.Sprintf("cross/names%d(%dkeys)/signed-by-set%d(%dof%d)", si, len(w.truth[si]), sj, q, n)
+}
+
+func (g *pGen) mkGenuine(w *pWorld, si int) (*vaa.VAA, string) {
+	v := g.body(uint32(si))
+	keys := w.truth[si]
+	n := len(keys)
+	q := nodeprocessor.CalculateQuorum(n)
+	g.signWith(v, keys, g.subset(n, q))
+	return v, fmt.Sprintf("genuine/%dof%d", q, n)
+}
+
+// every known set: an exact-quorum VAA of its own guardians, and VAAs naming it signed by a quorum of each other known set
+// (all of them for small worlds, the `span` nearest on either side otherwise)
+func (e *pEnv) probeAll(span int) {
+	g := e.g
+	cur, _ := e.gs.VerifState()
+	if cur >= len(e.w.truth) {
+		cur = len(e.w.truth) - 1
+	}
+	ok := pOpt{room: 2, failAt: -1}
+	for si := 0; si <= cur; si++ {
+		v, k := g.mkGenuine(e.w, si)
+		e.push(v, k, ok)
+		for sj := 0; sj <= cur; sj++ {
+			if sj == si || sj < si-span || sj > si+span {
+				continue
+			}
+			v, k := g.mkCross(e.w, si, sj)
+			e.push(v, k, ok)
+		}
+	}
+}
+
+var pOvertakers = []string{"lower", "same", "higher", "two-lower", "lower-cross"}
+
+// overtakenHistory: the explorer starts with the first n0 sets of a world whose sizes differ clearly from set to set; a VAA
+// naming set current+k (k >= 2) arrives and its lookup is overtaken by pushes of VAAs naming a lower / the same / a higher
+// new set (pushX); afterwards probeAll.  Repeated while the chain has newer sets.  The overtaken VAA is genuine on even
+// rounds and signed by the set BEFORE the one it names on odd rounds.
+func (g *pGen) overtakenHistory(sizes []int, n0 int, ov int) {
+	w := &pWorld{nilAt: -1}
+	for _, n := range sizes {
+		w.truth = append(w.truth, g.distinctKeys(n))
+	}
+	e := g.newEnv(g.cid("pushh"), w, n0, 2)
+	ok := pOpt{room: 2, failAt: -1}
+	top := len(sizes) - 1
+	for round := 0; ; round++ {
+		cur, _ := e.gs.VerifState()
+		if cur+2 > top {
+			break
+		}
+		k := 2 + g.r.Intn(2)
+		idx := cur + k
+		if idx > top {
+			idx = top
+		}
+		var v *vaa.VAA
+		var kname string
+		if round%2 == 0 {
+			v, kname = g.mkGenuine(w, idx)
+		} else {
+			v, kname = g.mkCross(w, idx, idx-1)
+		}
+		lower := cur + 1 + g.r.Intn(idx-cur-1)
+		e.pushX(v, "overtaken-by-"+pOvertakers[ov]+"/"+kname, ok, func() {
+			switch ov {
+			case 0:
+				b, bk := g.mkGenuine(w, lower)
+				e.push(b, bk, ok)
+			case 1:
+				b, bk := g.mkGenuine(w, idx)
+				e.push(b, bk, ok)
+			case 2:
+				b, bk := g.mkGenuine(w, top)
+				e.push(b, bk, ok)
+			case 3:
+				b, bk := g.mkGenuine(w, cur+1)
+				e.push(b, bk, ok)
+				b, bk = g.mkGenuine(w, idx-1)
+				e.push(b, bk, ok)
+			default:
+				b, bk := g.mkCross(w, lower, cur)
+				e.push(b, bk, ok)
+			}
+		})
+		e.probeAll(6)
+		ov = (ov + 1) % len(pOvertakers)
+	}
+}
+
+// farHistory: the chain is `dist` sets ahead of an explorer that knows n0 sets; a VAA naming the far set arrives, then probeAll
+func (g *pGen) farHistory(n0, dist int, shrinking bool) {
+	w := &pWorld{nilAt: -1}
+	for i := 0; i < n0+dist; i++ { // a size ladder 1,1,2,2,4,4,5,5,7,7,... (or the same downwards): quorums 1,1,2,2,3,3,4,4,5,5,...
+		j := i
+		if shrinking {
+			j = n0 + dist - 1 - i
+		}
+		w.truth = append(w.truth, g.distinctKeys([]int{1, 2, 4, 5, 7, 8, 10, 11, 13}[(j/2)%9]))
+	}
+	e := g.newEnv(g.cid("pushfar"), w, n0, 2)
+	v, k := g.mkGenuine(w, n0-1+dist)
+	e.push(v, fmt.Sprintf("far+%d/%s", dist, k), pOpt{room: 2, failAt: -1})
+	e.probeAll(2)
+}
+
+// worlds of the overtaken histories: (set sizes, sets known at start-up, first overtaker).  Strictly growing and strictly
+// shrinking size ladders make ANY displacement of a set within the list visible as a wrong threshold (an older set in a newer
+// set's place has a lower quorum on a growing ladder, a newer one in an older one's place on a shrinking ladder); the mixed
+// worlds are the 1-key bootstrap set followed by 19-key sets.
+var pHistWorlds = []struct {
+	sizes []int
+	n0    int
+	ov    int
+}{
+	{[]int{1, 2, 4, 7, 13, 19}, 1, 0},
+	{[]int{1, 2, 4, 7, 13, 19}, 2, 3},
+	{[]int{1, 3, 6, 10, 19}, 1, 4},
+	{[]int{19, 13, 7, 4, 2, 1}, 1, 0},
+	{[]int{1, 1, 19, 1, 19}, 2, 1},
+	{[]int{3, 1, 19, 6, 1, 19}, 1, 2},
+}
+
+// historyCases: part of the gate cases (C06 / C07 judge them too: the threshold and the keys the gate applies must be those
+// of the set the VAA names, after any history of fetches)
+func (g *pGen) historyCases() {
+	for _, hw := range pHistWorlds {
+		g.overtakenHistory(hw.sizes, hw.n0, hw.ov)
+	}
+	g.farHistory(1+g.r.Intn(2), 9+g.r.Intn(4), false)
+	g.farHistory(1+g.r.Intn(2), 9+g.r.Intn(4), true)
+}
+
 func (g *pGen) sequence(steps int) {
 	r := g.r
 	cid := g.cid("push")
@@ -1112,6 +1321,7 @@ func TestVerifPush(t *testing.T) {
 	for i := 0; i < rounds; i++ {
 		g.verifyDirect()
 		g.gateCases()
+		g.historyCases()
 		for _, sizes := range pForgedWorlds {
 			g.forgedSequence(sizes)
 		}
@@ -1139,5 +1349,6 @@ func TestVerifGate(t *testing.T) {
 		if i == 0 {
 			g.forgedSequence([]int{4})
 		}
+		g.historyCases()
 	}
 }
